@@ -14,13 +14,14 @@ on/off, Reno/CUBIC, emulated RTT by delaying ACKs.
 """
 import copy
 import os
+from . import rawpeer
 import tcplib
 import vlib
 from vlib import cfg, MV
 
 MANIFEST = dict(
     technique='TLA+ closed data-phase model with Reno-shaped sender (TLC) + trace validation of two real stacks under scripted loss/delay patterns against the C05 clauses of TraceTcp (only lower bounds on time)',
-    text='TLC counts, per emitted data segment, duplicate ACKs and acknowledged segments that had ARRIVED before it and enforces: fast retransmit first after the third duplicate ACK; a timeout retransmission never sooner than 200 ms after the previous transmission of that segment; initial window 10; Reno in-flight bound. Scenarios: flights of 12-40 segments with the lost segment at every position, tail loss (timeouts 1 s / 2 s), duplicate ACKs delivered late (delay faults placed at 0.1/0.5/0.85 of the RTO), ACK delay as RTT. Finding F7 (timeout shortly after a fast retransmit) is matched by shape.',
+    text='TLC counts, per emitted data segment, duplicate ACKs and acknowledged segments that had ARRIVED before it and enforces: fast retransmit first after the third duplicate ACK; a timeout retransmission never sooner than 200 ms after the previous transmission of that segment; initial window 10; Reno in-flight bound. Scenarios: flights of 12-40 segments with the lost segment at every position, tail loss (timeouts 1 s / 2 s), duplicate ACKs delivered late (delay faults placed at 0.1/0.5/0.85 of the RTO), ACK delay as RTT. Finding F7 (timeout shortly after a fast retransmit) is matched by shape. A scripted raw peer (harness/tcprawd, tools/checks/rawpeer.py) supplies the ACK patterns two real stacks never produce: exactly 1/2/3/4+ duplicate ACKs with unchanged or changing window, ACKs in the middle of a segment, several losses per flight and losses among segments sent during a recovery, ACK every k-th segment, emulated RTT 0..250 ms with and without timestamps, SACK blocks valid/D-SACK/nonsense, silent peers (back-off), ACKs of unsent data, old ACKs; regression scenarios of fixed finding F27 are judged with the C01 clauses too.',
     design='5 C05',
     note='Timeout doubling (Backoff) is checked on the wire as interval growth with lower bounds only: interval(k+1) >= 1.5 * interval(k) is NOT asserted (load could falsify it); instead exactly one data segment per expiry while the peer is silent and the 200 ms floor are asserted; exact doubling of the RTO value is read from hook H6 snapshots in the end-of-scenario state only. Scripted partial-ACK / arbitrary SACK patterns need a raw peer and are not driven yet.')
 
@@ -152,6 +153,8 @@ def run(ctx):
         f7['tag'] = 'f7-replay-%d' % attempt
         tcplib.run_pair(ctx, drv, [f7], ['C05'], 'c05f7-%d' % attempt, parallel=1, what='TCP loss recovery / congestion window', classify=tcplib.classify_all)
     ctx.extra['f7_reproduced_this_run'] = 'F7' in ctx.known_hits
+    # ---- the same clauses against a scripted raw peer (ACK patterns / windows / options two real stacks never produce)
+    rawpeer.raw_peer(ctx, ['C05'], 60, 400)
     # ---- binding self-test: pull a timeout retransmission 900 ms earlier; delete a fast retransmission
     tc = tcplib.tcfg(['C05'])
     tail = next((s for s, sc in zip(segs, scs) if '-n6-drop[6]' in sc['tag'] and s[-1].get('why') == 'done'), None)
